@@ -132,6 +132,7 @@ func main() {
 	ctx := context.Background()
 	tag := fmt.Sprintf("p%d", os.Getpid())
 	for n, b := range bs {
+		vlib.Progress(b.ID)
 		res.Behaviours++
 		m := mk(srv, cfg, fmt.Sprintf("vf%s-%d", tag, n), res)
 		if err := m.setup(ctx); err != nil {
